@@ -249,3 +249,51 @@ func (m *Map) Range(f func(k, v any) bool) {
 		}
 	}
 }
+
+// Cond mirrors sync.Cond. Under the scheduler waiters queue in arrival order; a waiter that is
+// never signalled stays blocked, which the explorer reports as a deadlock / leaked goroutine.
+type Cond struct {
+	L    Locker
+	once sync.Once
+	real *sync.Cond
+	st   sched.CondState
+}
+
+func NewCond(l Locker) *Cond { return &Cond{L: l} }
+
+func (c *Cond) fallback() *sync.Cond {
+	c.once.Do(func() { c.real = sync.NewCond(c.L) })
+	return c.real
+}
+
+func (c *Cond) Wait() {
+	if sched.Killed() {
+		return
+	}
+	ticket, ok := sched.CondEnqueue(&c.st)
+	if !ok {
+		c.fallback().Wait()
+		return
+	}
+	c.L.Unlock()
+	sched.CondWait(&c.st, ticket)
+	c.L.Lock()
+}
+
+func (c *Cond) Signal() {
+	if sched.Killed() {
+		return
+	}
+	if !sched.CondSignal(&c.st, false) {
+		c.fallback().Signal()
+	}
+}
+
+func (c *Cond) Broadcast() {
+	if sched.Killed() {
+		return
+	}
+	if !sched.CondSignal(&c.st, true) {
+		c.fallback().Broadcast()
+	}
+}
